@@ -33,6 +33,20 @@ SEARCH = AB + 'alpha_beta_search'
 MINIMAX = AB + 'alpha_beta_minimax'
 COUNTERS = {'searched_position_count', 'cache_hit_count', 'termination_count'}
 LOCK_FIELDS = COUNTERS | {'search_result_cache'}
+INT_LOCK = re.compile(r'^(std::sync::Arc<)?std::sync::(RwLock|Mutex)<(usize|u8|u16|u32|u64|u128|isize|i8|i16|i32|i64|i128|bool)>>?$|^(std::sync::Arc<)?std::sync::atomic::Atomic\w+>?$')
+
+
+def init_fields(facts):
+    """The shared state of a search: the result cache plus any number of integer COUNTERS behind their own lock (statistics).  Every such
+    counter is subject to the same discipline (R2: its value reaches nothing but itself; R4: lock order) - a maintainer may add one."""
+    adt = facts.adts.get(SC)
+    if adt is None:
+        return
+    found = {fd['name'] for v in adt['variants'] for fd in v['fields'] if INT_LOCK.match(fd['ty'])}
+    COUNTERS.clear()
+    COUNTERS.update(found)
+    LOCK_FIELDS.clear()
+    LOCK_FIELDS.update(COUNTERS | {'search_result_cache'})
 PAR_CLOSURES = [SEARCH + '::{closure#0}', 'chess::move_generator::MoveGenerator::count_positions::{closure#0}']
 INTERIOR = re.compile(r'\b(Mutex|RwLock|Atomic\w*|Cell|RefCell|UnsafeCell|OnceCell|OnceLock|LazyLock|mpsc::)\b')
 
@@ -92,7 +106,9 @@ def r1_inventory(ctx):
     # interior mutability in types reachable from the search: only SearchContext's four locks
     adt = facts.adts.get(SC)
     locks = {fd['name']: fd['ty'] for v in adt['variants'] for fd in v['fields'] if INTERIOR.search(fd['ty'])}
-    ctx.ob(rule, SC, 'interior-mutable fields are the result cache and three counters', set(locks) == LOCK_FIELDS, found=locks, expected=sorted(LOCK_FIELDS))
+    ctx.ob(rule, SC, 'interior-mutable fields are the result cache and integer counters', set(locks) == LOCK_FIELDS and 'search_result_cache' in locks and len(COUNTERS) >= 3,
+           found=locks, expected='search_result_cache + counters of an integer type, each behind its own lock',
+           why='any other shared mutable state (a board, a generator, a move list behind a lock) couples the root tasks')
     others = {}
     for path, a in facts.adts.items():
         if not path.startswith('chess::') or path == SC:
@@ -216,6 +232,65 @@ def r4_lock_order(ctx):
     ctx.extra['lock_edges'] = {'%s->%s' % k: sorted(map(str, v)) for k, v in edges.items()}
 
 
+_SIG_CACHE = {}
+
+
+def _normalise(x, ren):
+    """path-local numbering of call instances / unknowns (the engine numbers them globally across paths) and no epochs, so that two paths
+    can be compared for being the same up to one decision"""
+    if isinstance(x, tuple):
+        if len(x) == 2 and x[0] == 'e' and isinstance(x[1], int):
+            return ('e', 0)
+        if len(x) == 3 and x[0] == 'L' and isinstance(x[1], int) and isinstance(x[2], int):
+            return ('L', ren.setdefault(('f', x[1]), len(ren)), x[2])
+        if len(x) == 2 and x[0] in ('havoc', 'hv') and isinstance(x[1], int):
+            return (x[0], ren.setdefault(('u', x[1]), len(ren)))
+        if len(x) >= 4 and x[0] == 'call' and isinstance(x[3], int) and not isinstance(x[3], bool):
+            head = ('call', x[1], _normalise(x[2], ren), ren.setdefault(('u', x[3]), len(ren)))
+            return head + tuple(_normalise(y, ren) for y in x[4:])
+        return tuple(_normalise(y, ren) for y in x)
+    if isinstance(x, list):
+        return tuple(_normalise(y, ren) for y in x)
+    if isinstance(x, dict):
+        return tuple(sorted((repr(k), _normalise(v, ren)) for k, v in x.items()))
+    return x
+
+
+def self_update(outs, o, i, c):
+    """the decision at condition i of path o (which reads counter c) only decides whether / what is written to counter c itself (a running
+    maximum, a saturating count): some path decides it the other way and is otherwise the same path - same remaining conditions, same
+    value, same events except the writes through c's own guard"""
+    def guard_calls(p):
+        """uids of the Deref / DerefMut calls on a guard of counter c's lock (a `&mut guard` receiver is resolved through the value the
+        guard local held before the call)"""
+        ids = set()
+        for e in p.events:
+            if e[0] == 'call' and 'Guard' in e[1] and 'deref' in e[1].rsplit('::', 1)[-1]:
+                pre = dict(e[6]).get(0) if len(e) > 6 and e[6] else None
+                if any(lock_field(a_) == c for a_ in e[2]) or (pre is not None and lock_field(pre) == c):
+                    ids.add(e[3])
+        return ids
+
+    def sig(p, skip):
+        gc = guard_calls(p)
+        evs = [e for e in p.events
+               if not (e[0] == 'write' and any(x[0] == 'call' and 'Guard' in x[1] and (x[3] in gc or lock_field(x) == c) for x in subterms(e[1])))
+               and not (e[0] == 'call' and e[3] in gc)]
+        # without source span and epoch stamp; a dropped guard by its type (its value term is opaque after a `&mut` use)
+        evs = [(e[:5] + (e[6],) if e[0] == 'call' and len(e) > 6 else (e[:2] if e[0] == 'drop' else e)) for e in evs]
+        ren = {}
+        return _normalise((p.kind, [x for j, x in enumerate(p.conds) if j != skip], evs, p.value), ren)
+    key = (id(outs), i, repr(_normalise(o.conds[i][0], {})), c)
+    if key not in _SIG_CACHE:
+        table = {}
+        for p in outs:
+            if len(p.conds) > i and _normalise(p.conds[i][0], {}) == _normalise(o.conds[i][0], {}):
+                table.setdefault(sig(p, i), set()).add(repr(p.conds[i][1]))
+        _SIG_CACHE.clear()
+        _SIG_CACHE[key] = table
+    return len(_SIG_CACHE[key].get(sig(o, i), ())) >= 2
+
+
 def r2_non_interference(ctx):
     rule = 'C09.R2-counters'
     facts = ctx.facts
@@ -245,9 +320,9 @@ def r2_non_interference(ctx):
                     if s[0] == 'call' and 'Guard' in s[1] and 'deref' in s[1]:
                         pass
                 return None
-            for a, v in o.conds:
+            for i_, (a, v) in enumerate(o.conds):
                 c = counter_value(a)
-                if c:
+                if c and not self_update(outs, o, i_, c):
                     leaks.add(('branch', c))
             if o.value is not None:
                 c = counter_value(o.value)
@@ -274,8 +349,8 @@ def r2_non_interference(ctx):
         from sa.facts import field_reads
         for f, b, _ in field_reads(facts, SC, fld):
             users.add(f.closure_of or f.name)
-    allowed = {SC + '::reset_stats', SC + '::searched_position_count', SC + '::cache_hit_count', SC + '::termination_count', SC + '::new',
-               MINIMAX} | set(x for x in search_cache_fns(facts) if x) | facts.only_through({SC + '::reset_stats', SC + '::searched_position_count', SC + '::cache_hit_count', SC + '::termination_count', SC + '::new', MINIMAX} | set(x for x in search_cache_fns(facts) if x))
+    base = {SC + '::reset_stats', SC + '::new', MINIMAX} | {SC + '::' + c for c in COUNTERS} | set(x for x in search_cache_fns(facts) if x)
+    allowed = base | facts.only_through(base)
     users = {u for u in users if not facts.fns[u].derived}
     ctx.ob(rule, SC, 'counters touched only by the search, reset_stats and the getters', users <= allowed, found=sorted(users - allowed), expected=[], nontrivial=False)
 
@@ -310,6 +385,7 @@ def r5_selection(ctx):
 
 
 def run(ctx):
+    init_fields(ctx.facts)
     r1_inventory(ctx)
     r2_non_interference(ctx)
     # R3: functional cache = C08.R1
